@@ -101,7 +101,7 @@ def handle : Handler
         | none => some "fuel"
         | some (l, t) =>
           let cw := Vote.withWeights rt.adj true
-          some s!"ok {showList l} {t} {showMat (tab l.length fun i => Vote.probsRow cw l i)}") "bad-args"
+          some s!"ok {showList l} {t} {showMat (tab l.length fun i => Propagation.probsRow cw l i)}") "bad-args"
   | "c13.spec_prop", [n, m, ip, ix, dt, v, r, c, w, labels, stable] => some <| Option.getD (do
       let rt ← routed? n m ip ix dt "0" v r c
       let w ← bool? w
